@@ -95,24 +95,15 @@ def reader_chain(fn):
     return chain
 
 
-def run(ctx):
-    C = Check('C01', ctx['tier'], 'other', ctx['seed'])
-    P = Program(ctx['facts'])
-    syn = json.load(open(os.path.join(ctx['facts'], 'syn.json')))['files']
-    C.rule('C01-SIB-escape', 'writer table (escape_text) and reader table (unescape_string) are inverse and complete: the writer escapes each of < & " (the characters that do not read back verbatim); its fast-path pre-check mentions each of them; for every writer pair (c, s) the reader has an arm starts_with(s) -> push(c) that skips len(s); '
-           'named entities are tested before the numeric forms and &#x before &#')
-    C.rule('C01-MUST-writer', 'CharacterData::serialize_internal emits a String payload only through escape_text; Element::serialize_internal and serialize_attributes emit character data only through CharacterData::serialize_internal; attributes are quoted with the double quote that escape_text escapes')
-    C.rule('C01-SIB-reader', 'in parse_character_data every CharacterData::String built from input passes through unescape_string, or the path reported a (Utf8) error; the whitespace-preserving string kind converts the UNtrimmed input; attribute values and element text use the same parse_character_data')
-    C.rule('C01-SIB-fields', 'every ElementRaw field the parser stores (elemname, attributes, content, comment) is read by the serializer; xml_standalone is stored by load and read by ArxmlFile::serialize; every field of the CharacterDataSpec variants is read in parse_character_data')
-    C.assumptions = ['whitespace trimming, indentation, number formatting and byte identity of the second serialisation are NOT decided', 'str::starts_with / String::push_str have their std semantics']
-    # ---------------- SIB-escape ----------------
+def escape_rules(C, P, syn, RULE):
+    """writer / reader escaping tables are inverse and complete (shared by C01 and C07)"""
     cf = syn.get('autosar-data/src/chardata.rs')
     pf = syn.get('autosar-data/src/parser.rs')
     esc = [x for x in (cf or {}).get('fns', []) if x['name'] == 'escape_text']
     une = [x for x in (pf or {}).get('fns', []) if x['name'] == 'unescape_string']
     if len(esc) != 1 or len(une) != 1:
-        C.anchor_missing('C01-SIB-escape', 'escape_text / unescape_string in syn.json')
-        return C.finish('fail closed')
+        C.anchor_missing(RULE, 'escape_text / unescape_string in syn.json')
+        return False
     W, ident = writer_table(esc[0])
     cond = first_if_cond(esc[0])
     Pre = set(lits(cond)) if cond is not None else None
@@ -125,32 +116,48 @@ def run(ctx):
     C.extra['writer_precheck'] = sorted(Pre) if Pre is not None else None
     C.extra['reader_chain'] = [[s, c, k] for s, c, k, ln in chain]
     for c in REQUIRED:
-        C.check(W.get(c) is not None, 'C01-SIB-escape', 'writer-escapes|%r' % c, 'escape_text does not replace %r (text or attribute values containing it produce ill-formed XML / a different value after reloading)' % c, where_w,
+        C.check(W.get(c) is not None, RULE, 'writer-escapes|%r' % c, 'escape_text does not replace %r (text or attribute values containing it produce ill-formed XML / a different value after reloading)' % c, where_w,
                 sample={'char': c, 'written_as': W.get(c)} if c == '<' else None)
-    C.check(ident, 'C01-SIB-escape', 'writer-identity-arm', 'escape_text has no arm that copies all other characters unchanged', where_w)
+    C.check(ident, RULE, 'writer-identity-arm', 'escape_text has no arm that copies all other characters unchanged', where_w)
     if Pre is None:
-        C.ok('C01-SIB-escape', 'writer-precheck|none', 'no fast path')
+        C.ok(RULE, 'writer-precheck|none', 'no fast path')
     else:
         for c in sorted(c_ for c_ in W if c_ in REQUIRED):
-            C.check(c in Pre, 'C01-SIB-escape', 'writer-precheck-covers|%r' % c, 'the fast-path test of escape_text does not look for %r although the loop escapes it: a value containing %r but none of the tested characters is written verbatim (an attribute value with a double quote ends the attribute early)' % (c, c), where_w,
+            C.check(c in Pre, RULE, 'writer-precheck-covers|%r' % c, 'the fast-path test of escape_text does not look for %r although the loop escapes it: a value containing %r but none of the tested characters is written verbatim (an attribute value with a double quote ends the attribute early)' % (c, c), where_w,
                     sample={'precheck': sorted(Pre)} if c == '&' else None)
     for c, s in sorted(W.items()):
         if s is None:
             continue
-        C.check(s.startswith('&') and s.endswith(';') and len(s) > 2, 'C01-SIB-escape', 'writer-form|%r' % c, 'the replacement %r for %r is not of the form &name;' % (s, c), where_w)
+        C.check(s.startswith('&') and s.endswith(';') and len(s) > 2, RULE, 'writer-form|%r' % c, 'the replacement %r for %r is not of the form &name;' % (s, c), where_w)
         got = R.get(s)
-        C.check(got is not None and got[0] == c, 'C01-SIB-escape', 'reader-inverts|%s' % s, 'the reader does not map %r back to %r (it maps it to %r): a value written by the serializer is read back differently' % (s, c, got[0] if got else None), where_r,
+        C.check(got is not None and got[0] == c, RULE, 'reader-inverts|%s' % s, 'the reader does not map %r back to %r (it maps it to %r): a value written by the serializer is read back differently' % (s, c, got[0] if got else None), where_r,
                 sample={'entity': s, 'reader_pushes': got[0] if got else None, 'skip': got[1] if got else None} if c == '&' else None)
-        C.check(got is not None and got[1] == len(s), 'C01-SIB-escape', 'reader-skips-whole-entity|%s' % s, 'after decoding %r the reader skips %s bytes instead of %d' % (s, got[1] if got else None, len(s)), where_r)
+        C.check(got is not None and got[1] == len(s), RULE, 'reader-skips-whole-entity|%s' % s, 'after decoding %r the reader skips %s bytes instead of %d' % (s, got[1] if got else None, len(s)), where_r)
     # order
     named = [s for s in order if s.endswith(';')]
     num = [s for s in order if not s.endswith(';')]
     ok_order = all(order.index(n_) < order.index(m) for n_ in named for m in num) and ('&#x' in order and '&#' in order and order.index('&#x') < order.index('&#'))
-    C.check(ok_order, 'C01-SIB-escape', 'reader-order', 'the starts_with chain of unescape_string tests a numeric-reference prefix before a named entity, or "&#" before "&#x" (the shorter prefix shadows the longer one)', where_r, sample={'order': order})
-    C.floor('C01-SIB-escape.reader-arms', len(chain), 7)
+    C.check(ok_order, RULE, 'reader-order', 'the starts_with chain of unescape_string tests a numeric-reference prefix before a named entity, or "&#" before "&#x" (the shorter prefix shadows the longer one)', where_r, sample={'order': order})
+    C.floor(RULE + '.reader-arms', len(chain), 7)
     # numeric references decode through char::from_u32 with radix 16 / 10
     un = P.get('ArxmlParser::unescape_string')
-    C.check(len(calls(un, r'from_str_radix$')) >= 1 and len(calls(un, r'char::from_u32$|char::methods::<impl char>::from_u32$|<impl char>::from_u32$')) >= 2, 'C01-SIB-escape', 'reader-numeric-references', 'unescape_string no longer decodes both hexadecimal and decimal character references through char::from_u32', where_r)
+    C.check(len(calls(un, r'from_str_radix$')) >= 1 and len(calls(un, r'char::from_u32$|char::methods::<impl char>::from_u32$|<impl char>::from_u32$')) >= 2, RULE, 'reader-numeric-references', 'unescape_string no longer decodes both hexadecimal and decimal character references through char::from_u32', where_r)
+    return True
+
+
+def run(ctx):
+    C = Check('C01', ctx['tier'], 'other', ctx['seed'])
+    P = Program(ctx['facts'])
+    syn = json.load(open(os.path.join(ctx['facts'], 'syn.json')))['files']
+    C.rule('C01-SIB-escape', 'writer table (escape_text) and reader table (unescape_string) are inverse and complete: the writer escapes each of < & " (the characters that do not read back verbatim); its fast-path pre-check mentions each of them; for every writer pair (c, s) the reader has an arm starts_with(s) -> push(c) that skips len(s); '
+           'named entities are tested before the numeric forms and &#x before &#')
+    C.rule('C01-MUST-writer', 'CharacterData::serialize_internal emits a String payload only through escape_text; Element::serialize_internal and serialize_attributes emit character data only through CharacterData::serialize_internal; attributes are quoted with the double quote that escape_text escapes')
+    C.rule('C01-SIB-reader', 'in parse_character_data every CharacterData::String built from input passes through unescape_string, or the path reported a (Utf8) error; the whitespace-preserving string kind converts the UNtrimmed input; attribute values and element text use the same parse_character_data')
+    C.rule('C01-SIB-fields', 'every ElementRaw field the parser stores (elemname, attributes, content, comment) is read by the serializer; xml_standalone is stored by load and read by ArxmlFile::serialize; every field of the CharacterDataSpec variants is read in parse_character_data')
+    C.assumptions = ['whitespace trimming, indentation, number formatting and byte identity of the second serialisation are NOT decided', 'str::starts_with / String::push_str have their std semantics']
+    # ---------------- SIB-escape ----------------
+    if not escape_rules(C, P, syn, 'C01-SIB-escape'):
+        return C.finish('fail closed')
     # ---------------- MUST-writer ----------------
     si = P.get('CharacterData::serialize_internal')
     pushes = calls(si, r'String::push_str$')
